@@ -50,7 +50,7 @@ let handle kind fs obs =
     | [a; b; c; d] -> { s_va = n_of_string a; s_vs = n_of_string b; s_prd = n_of_string c; s_srd = n_of_string d }
     | _ -> failwith "sec") (split_on ';' (field fs "secs")) in
   let v = { v_file = file; v_addr = n_of_int (4096 + int_of_string (field fs "place")); v_len = n_of_int (Bytes.length img);
-            v_get = get; v_w = (if fmt64 then w64 else w32); v_base = n_of_string (field fs "base");
+            v_get = get; v_w = (if fmt64 then w64 else w32); v_base = n_of_string (match (try List.assoc "setbase" fs with Not_found -> "-") with "-" -> field fs "base" | sb -> sb);
             v_soh = n_of_string (field fs "soh"); v_soi = n_of_string (field fs "soi"); v_secs = secs } in
   let dd = (match field fs "dd" with "-" -> None | s -> (match String.split_on_char ':' s with
     | [a; b] -> Some (n_of_string a, n_of_string b) | _ -> failwith "dd")) in
